@@ -11,11 +11,45 @@ import (
 	"os"
 	"path/filepath"
 	"regexp"
+	"strconv"
 	"strings"
 	"time"
 
 	"pgregory.net/rapid"
 )
+
+// refParseFailFile is the reference grammar of a fail file, written independently of the loader:
+// lines (LF or CRLF) are trimmed; empty lines and lines starting with '#' are comments; the first
+// remaining line is "<version>#<decimal seed>" with exactly one '#'; every further line is one word
+// in Go integer-literal syntax that fits in 64 bits.
+func refParseFailFile(content []byte) (version string, words []uint64, ok bool) {
+	var data []string
+	for _, ln := range strings.Split(string(content), "\n") {
+		ln = strings.TrimSpace(strings.TrimSuffix(ln, "\r"))
+		if ln == "" || strings.HasPrefix(ln, "#") {
+			continue
+		}
+		data = append(data, ln)
+	}
+	if len(data) == 0 {
+		return "", nil, false
+	}
+	parts := strings.Split(data[0], "#")
+	if len(parts) != 2 {
+		return "", nil, false
+	}
+	if _, err := strconv.ParseUint(parts[1], 10, 64); err != nil {
+		return "", nil, false
+	}
+	for _, w := range data[1:] {
+		u, err := strconv.ParseUint(w, 0, 64)
+		if err != nil {
+			return "", nil, false
+		}
+		words = append(words, u)
+	}
+	return parts[0], words, true
+}
 
 var reIgnoring = regexp.MustCompile(`\[rapid\] (ignoring fail file|fail file .* is no longer valid)`)
 
@@ -193,6 +227,16 @@ func c17Units(tier string, seed int64) []Unit {
 						last := env.Invs[len(env.Invs)-1]
 						if !last.Falsified() {
 							viol("accepted-file-does-not-falsify", "the file was accepted but the presented case does not fail")
+						}
+						// which file was used? the one the message names; it must be a usable file by the reference grammar
+						for i, f := range files {
+							if f.special != "" || !strings.Contains(v.FailFile, fmt.Sprintf("-2020%04d-7.fail", i)) {
+								continue
+							}
+							ver, _, okp := refParseFailFile(f.content)
+							if !okp || ver != rapid.VerifVersion() {
+								viol("malformed-file-used", fmt.Sprintf("file #%d is not a well-formed fail file of this version by the reference grammar (version %q, well-formed=%v), yet it was replayed and reported", i, ver, okp))
+							}
 						}
 						continue
 					}
